@@ -1635,7 +1635,14 @@ def run(ctx):
     # 3. Z3 oracle stream
     rng = ctx.rng("z3")
     g = G(rng)
-    goals = [g.goal() for _ in range(ctx.scale(700, 6000))]
+    goals = []
+    for _ in range(ctx.scale(700, 6000)):
+        x = g.goal()
+        try:
+            H.term(x).checked_get_type()
+            goals.append(x)
+        except Exception as e:  # noqa  (a binder and a variable of one name at two types: not a holpy term)
+            ctx.count("z3:gen:not-a-term:" + type(e).__name__)
     for x in goals[:3]:
         ctx.sample({"z3_goal": str(H.term(x))})
     n = z3_check_goals(ctx, H, goals, ctx.rng("z3-oracle"), "gen")
